@@ -54,7 +54,9 @@ func Parse(yangfiles, path []string) (map[string]*yang.Entry, []error) {
 
 	entries := make(map[string]*yang.Entry)
 	for _, m := range ms.Modules {
-		e := yang.ToEntry(m)
+		// Of several loaded revisions of a module, the one its bare
+		// name denotes, not the one the map walk meets last.
+		e := yang.ToEntry(ms.Modules[m.Name])
 		entries[e.Name] = e
 	}
 
